@@ -361,7 +361,13 @@ class Run:
             if isinstance(o, HDict):
                 return len(o.items) > 0
             if isinstance(o, HObj):
-                return True     # instance of a repository class: none of them defines __bool__ / __len__ (checked by selftest)
+                # instance of a repository class: truthy unless the class (or a base in the repository) defines
+                # __bool__ / __len__
+                ci = self.ctx.repo.classes.get(o.cls)
+                for k in (ci.mro or [ci]) if ci is not None else []:
+                    if "__bool__" in k.methods or "__len__" in k.methods:
+                        raise Unsupported("truth value of an instance of %s (defines __bool__ / __len__)" % o.cls)
+                return True
             for h in TRUTH_HOOKS:
                 r = h(self, v, o)
                 if r is not NotImplemented:
